@@ -550,7 +550,19 @@ func gen(t *rapid.T) Case {
 		if h.Thorough() {
 			depth = 3
 		}
-		if rapid.IntRange(0, 3).Draw(t, "rwtable") == 0 {
+		if rapid.IntRange(0, 9).Draw(t, "nulltable") == 0 {
+			// members sent as null under compositions: the alternative is judged on the object as it was sent
+			nt := rapid.SampledFrom([][2]string{
+				{`{"oneOf":[{"type":"object","required":["a"],"properties":{"a":{"type":"string","nullable":true}}},{"type":"integer"}]}`, `{"a":null}`},
+				{`{"anyOf":[{"type":"object","additionalProperties":false,"properties":{"a":{"type":"integer"}}}]}`, `{"a":1,"zz":null}`},
+				{`{"anyOf":[{"type":"object","minProperties":2},{"type":"string"}]}`, `{"a":null,"b":null}`},
+				{`{"oneOf":[{"type":"object","maxProperties":1},{"type":"string"}]}`, `{"a":1,"b":null}`},
+				{`{"not":{"type":"object","required":["a"]}}`, `{"a":null}`},
+				{`{"type":"object","properties":{"o":{"oneOf":[{"type":"object","required":["k"],"properties":{"k":{"nullable":true}}},{"type":"boolean"}]}}}`, `{"o":{"k":null}}`},
+				{`{"oneOf":[{"type":"array","items":{"type":"object","required":["a"],"properties":{"a":{"nullable":true,"type":"integer"}}}},{"type":"string"}]}`, `[{"a":null},{"a":2}]`},
+			}).Draw(t, "nullcase")
+			c.Schema, c.Body = nt[0], nt[1]
+		} else if rapid.IntRange(0, 3).Draw(t, "rwtable") == 0 {
 			c.Schema, c.Body = rwTable([2]int{rapid.IntRange(0, 17).Draw(t, "rwp"), rapid.IntRange(0, 17).Draw(t, "rwq")}, rapid.IntRange(0, 3).Draw(t, "rwnest"))
 		} else {
 			s := schemagen.Gen(schemagen.Options{Depth: depth, ReadWrite: true}).Draw(t, "schema")
